@@ -1,0 +1,96 @@
+// Copyright 2019 Karl Stenerud
+//
+// Permission is hereby granted, free of charge, to any person obtaining a copy
+// of this software and associated documentation files (the "Software"), to
+// deal in the Software without restriction, including without limitation the
+// rights to use, copy, modify, merge, publish, distribute, sublicense, and/or
+// sell copies of the Software, and to permit persons to whom the Software is
+// furnished to do so, subject to the following conditions:
+//
+// The above copyright notice and this permission notice shall be included in
+// all copies or substantial portions of the Software.
+//
+// THE SOFTWARE IS PROVIDED "AS IS", WITHOUT WARRANTY OF ANY KIND, EXPRESS OR
+// IMPLIED, INCLUDING BUT NOT LIMITED TO THE WARRANTIES OF MERCHANTABILITY,
+// FITNESS FOR A PARTICULAR PURPOSE AND NONINFRINGEMENT. IN NO EVENT SHALL THE
+// AUTHORS OR COPYRIGHT HOLDERS BE LIABLE FOR ANY CLAIM, DAMAGES OR OTHER
+// LIABILITY, WHETHER IN AN ACTION OF CONTRACT, TORT OR OTHERWISE, ARISING
+// FROM, OUT OF OR IN CONNECTION WITH THE SOFTWARE OR THE USE OR OTHER DEALINGS
+// IN THE SOFTWARE.
+
+package builder
+
+import (
+	"encoding/binary"
+	"fmt"
+	"reflect"
+
+	"github.com/kstenerud/go-concise-encoding/ce/events"
+)
+
+// Slices and arrays of int, uint and bool have no dedicated typed array
+// builders, but the iterator generates typed arrays (int64, uint64, bit) for
+// them. This builds such a destination directly from the typed array.
+//
+// Returns false if dst is not such a slice or array, or if arrayType is not
+// the array type that the iterator generates for it.
+func tryBuildIntUintBoolContainerFromArray(ctx *Context, arrayType events.ArrayType, data []byte, dst reflect.Value) bool {
+	if !dst.IsValid() || (dst.Kind() != reflect.Slice && dst.Kind() != reflect.Array) {
+		return false
+	}
+
+	var elemCount int
+	switch dst.Type().Elem().Kind() {
+	case reflect.Int:
+		if arrayType != events.ArrayTypeInt64 {
+			return false
+		}
+		elemCount = len(data) / 8
+	case reflect.Uint:
+		if arrayType != events.ArrayTypeUint64 {
+			return false
+		}
+		elemCount = len(data) / 8
+	case reflect.Bool:
+		if arrayType != events.ArrayTypeBit {
+			return false
+		}
+		elemCount = int(ctx.arrayElementCount)
+		if elemCount > len(data)*8 {
+			elemCount = len(data) * 8
+		}
+	default:
+		return false
+	}
+
+	container := dst
+	if dst.Kind() == reflect.Slice {
+		container = reflect.MakeSlice(dst.Type(), elemCount, elemCount)
+	} else if elemCount > dst.Len() {
+		panic(fmt.Errorf("array of %v elements is too long for type %v", elemCount, dst.Type()))
+	}
+
+	for i := 0; i < elemCount; i++ {
+		switch arrayType {
+		case events.ArrayTypeInt64:
+			value := int64(binary.LittleEndian.Uint64(data[i*8:]))
+			if container.Index(i).OverflowInt(value) {
+				panic(fmt.Errorf("%v is too big to fit into type %v", value, dst.Type().Elem()))
+			}
+			container.Index(i).SetInt(value)
+		case events.ArrayTypeUint64:
+			value := binary.LittleEndian.Uint64(data[i*8:])
+			if container.Index(i).OverflowUint(value) {
+				panic(fmt.Errorf("%v is too big to fit into type %v", value, dst.Type().Elem()))
+			}
+			container.Index(i).SetUint(value)
+		case events.ArrayTypeBit:
+			container.Index(i).SetBool(data[i/8]&(1<<(i&7)) != 0)
+		}
+	}
+
+	if dst.Kind() == reflect.Slice {
+		dst.Set(container)
+	}
+	return true
+}
